@@ -4,6 +4,12 @@ import json, os, subprocess
 HERE = os.path.dirname(os.path.abspath(__file__))
 
 CHECKS = {
+ "C07": dict(cat="exploration", tech="runtime monitoring: generated closure worlds + call/assignment histories, printed observations after every step compared with a cell model (lexical scoping, one cell per variable, fresh cells per factory call)",
+   text="A 47-case catalogue (readers, modify-writers, shadowers, factories, closures returned / stored in lists / passed as arguments / created in blocks and loops, nesting depth <= 3, is_closure, the pinned cases of every defect found) and seeded random histories (<= 12 steps) are executed; after every step all observable variables and reader results are printed and compared line by line with the model, which parses and interprets the same source text.",
+   note="Trusted: models/closures.py (its lexical-scoping interpreter). Avoidance rules of the random generator switch on only while the corresponding pinned finding is listed in known_findings.json.", ref="§3 C07"),
+ "C08": dict(cat="exploration", tech="runtime monitoring: generated classes + histories of constructions, aliasings, field writes, method calls and `is` tests, printed fields of every alias compared with an object model with identity",
+   text="A 28-case catalogue and seeded histories (<= 15 steps over <= 5 object variables, <= 3 classes with scalar/list/optional/class-typed fields, methods calling sibling methods and returning Self, objects passed to / returned from functions and stored in lists and maps) are executed; after each step the fields of every alias are printed (never the object itself) and compared with Python instances sharing by reference; `a is b` must be true exactly for the same instance.",
+   note="Trusted: models/objects.py + the interpreter of models/closures.py.", ref="§3 C08"),
  "C14": dict(cat="exploration", tech="runtime monitoring: every built-in method x exhaustive boundary receivers/arguments + seeded random, printed value and run-time kind (H-KIND) compared with one model function per method and with the declared `typeof`",
    text="For each string and number built-in of the statement the catalogue enumerates boundary receivers and arguments (empty/1-char/ASCII/multi-byte text, indices -1,0,len-1,len,len+1, numeric extremes of each kind, exponents, radices 0,1,2,10,16,36,37) and seeded random values; each probe prints `typeof (E)` and `E` with typed printing; the model gives the accepted outcomes (value, kind, or failure) per probe. Inside the domain a failure or wrong value/kind is a violation; outside it any stop is accepted and a value is a violation. Deviations are re-run alone before being reported.",
    note="Trusted: models/builtins.py following the meanings documented by tests/builtins.rs; where the statement leaves a meaning open (byte vs character units on multi-byte text, 0x-prefixed input to parse_int) every reading is accepted and listed in evidence.", ref="§3 C14"),
